@@ -172,13 +172,17 @@ TIED = {7: {1: 0}, 8: {2: 0}}
 AGGS = ['usq', 'tern', 'rusq', 'drive', 'usq_arith']
 
 
-def _ucase(fn, v, L, G, shape=None):
-  return {'kind': 'U', 'fn': fn, 'v': [float(x) for x in v], 'L': L, 'G': G, 'shape': shape or [len(v)]}
+def _ucase(fn, v, L, G, shape=None, bounds=None, kw=1):
+  c = {'kind': 'U', 'fn': fn, 'v': [float(x) for x in v], 'L': L, 'G': G, 'shape': shape or [len(v)]}
+  if bounds is not None:
+    c['bounds'] = [float(bounds[0]), float(bounds[1])]    # explicit v_min / v_max (keyword or positional)
+    c['kw'] = kw
+  return c
 
 
 def generate(tier, rng):
   G = 64 if tier != 'thorough' else 256
-  n_rand = {'quick': 32, 'thorough': 200, 'search': 150}[tier]
+  n_rand = {'quick': 24, 'thorough': 200, 'search': 150}[tier]
   eighth = lambda n: [rng.randrange(-32, 33) / 8.0 for _ in range(n)]
   special = [
       [0.0], [2.5], [-1.0], [0.0, 0.0, 0.0], [1.5, 1.5, 1.5, 1.5], [0.0, 2.0, 2.0], [0.0, 1.0, 2.0], [1.0, 2.0, 3.0, 4.0, 5.0],
@@ -187,7 +191,7 @@ def generate(tier, rng):
   ]
   levels = [2, 3, 4, 5, 6, 7, 9, 10, 16, 17, 33, 100]
   for v in special:
-    for L in ([2, 3, 5, 100] if tier == 'quick' else levels):
+    for L in ([2, 3, 100] if tier == 'quick' else levels):
       yield _ucase('usq', v, L, G)
     yield _ucase('bsq', v, 2, G)
     if max(abs(x) for x in v) >= 1e-10 or not any(v):
@@ -204,6 +208,12 @@ def generate(tier, rng):
       yield _ucase('usq', [rng.uniform(-3, 3) for _ in range(n)], L, G)
     if i % 3 == 0:
       yield _ucase('bsq', eighth(n), 2, G)
+  # explicit v_min / v_max (keyword and positional): wider than the data, equal to it, narrower (clamping), degenerate
+  for i, (v, a, b) in enumerate([([0.5, 1.0, 2.0, 3.0], 0.0, 4.0), ([0.5, 1.0, 2.0, 3.0], 0.5, 3.0), ([0.5, 1.0, 2.0, 3.0], 1.0, 2.0),
+                                 ([-1.0, 0.0, 0.25], -1.0, 1.0), ([2.0, 2.0], 2.0, 2.0), ([0.0, 0.125, 7.0], 0.0, 8.0)]):
+    for L in ((3, 5) if tier == 'quick' else (2, 3, 5, 9)):
+      yield _ucase('usq', v, L, G, bounds=(a, b), kw=(i + L) % 2)
+    yield _ucase('bsq', v, 2, G, bounds=(a, b), kw=i % 2)
   # TernGrad: rational sigma families (+-a, +-b, zeros: sigma = sqrt(2(a^2+b^2)/n)) with and without clipping
   for a, b, n in [(12, 5, 50), (4, 3, 50), (3, 4, 8), (5, 12, 8), (100, 0, 50), (8, 6, 50), (15, 8, 50), (1, 0, 2)]:
     v = [float(a), float(-a)] + ([float(b), float(-b)] if b else []) + [0.0] * (n - (4 if b else 2))
@@ -218,6 +228,13 @@ def generate(tier, rng):
     yield {'kind': 'D', 'x': x}
   for _ in range(n_rand // 4):
     yield {'kind': 'D', 'x': eighth(rng.choice([1, 2, 4, 7, 16]))}
+  # wave 3: argument forms, boundary values, reuse, caller-owned data, dtypes, contexts, remaining entry points
+  for sub in XSUBS:
+    for agg in (['usq', 'rusq', 'drive', 'tern', 'usq_arith'] if sub in ('forms', 'boundary', 'reuse', 'owned') else [None]):
+      if tier == 'quick' and agg == 'usq_arith' and sub != 'boundary':
+        continue
+      yield {'kind': 'X', 'sub': sub, 'agg': agg, 'L': rng.choice([2, 3, 5]), 'seed': rng.randrange(1, 2 ** 30),
+             'key': rng.choice([0, rng.randrange(2 ** 31)])}
   # aggregators
   combos = []
   for ai, agg in enumerate(AGGS):
@@ -229,7 +246,7 @@ def generate(tier, rng):
     keep = {}
     for agg, nc, nr in combos:
       keep.setdefault(agg, [])
-      if len(keep[agg]) < 6:
+      if len(keep[agg]) < 5:
         keep[agg].append((agg, nc, nr))
     combos = [c for a in AGGS for c in keep[a]]
     # make sure every client count and round count appears for every aggregator
@@ -242,7 +259,8 @@ def generate(tier, rng):
         if not any(c[2] == nr for c in have):
           combos.append((agg, rng.choice([1, 2, 3, 4]), nr))
   for agg in ('rusq', 'drive', 'usq', 'tern'):
-    for tree, share in ((7, False), (8, False), (3, True), (8, True)) if agg in ('rusq', 'drive') else ((7, True),):
+    for tree, share in (((7, False), (8, True)) if tier == 'quick' else ((7, False), (8, False), (3, True), (8, True))) \
+        if agg in ('rusq', 'drive') else ((7, True),):
       nc = 2 if tree != 3 else 3
       yield {'kind': 'A', 'agg': agg, 'L': rng.choice([2, 3, 5]), 'tree': tree, 'clients': nc, 'rounds': 2,
              'weights': [1.0, 2.0, 0.5][:nc], 'seed': rng.randrange(1, 2 ** 30), 'key': rng.randrange(2 ** 31),
@@ -260,12 +278,21 @@ def generate(tier, rng):
 # --------------------------------------------------------------------------
 # running the implementation
 
-def _call_q(fn, v, L, shape, key):
+def _call_q(fn, v, L, shape, key, bounds=None, kw=1):
   import jax
   import jax.numpy as jnp
   from fedjax.aggregators import compression
   x = jnp.asarray(np.array(v, np.float32).reshape(shape))
   k = jax.random.PRNGKey(key)
+  if bounds is not None:
+    a, b = bounds
+    if fn == 'usq':
+      r = (compression.uniform_stochastic_quantize(x, L, k, v_min=a, v_max=b) if kw else
+           compression.uniform_stochastic_quantize(x, L, k, a, b))
+    else:
+      r = (compression.binary_stochastic_quantize(x, k, v_min=a, v_max=b) if kw else
+           compression.binary_stochastic_quantize(x, k, a, b))
+    return np.asarray(r).reshape(-1)
   if fn == 'usq':
     return np.asarray(compression.uniform_stochastic_quantize(x, L, k)).reshape(-1)
   if fn == 'bsq':
@@ -280,7 +307,7 @@ def run_U(case):
   with Spy(const_u=0.0, wrap=False) as spy:
     for g in range(G):
       spy.const_u = g / G
-      outs.append(_call_q(case['fn'], case['v'], case['L'], case['shape'], 0))
+      outs.append(_call_q(case['fn'], case['v'], case['L'], case['shape'], 0, case.get('bounds'), case.get('kw', 1)))
   outs = np.array(outs, np.float64)           # [G, n]
   at0 = outs[0]
   lo, hi = outs[G - 1], outs[1]               # u = (G-1)/G and u = 1/G; u = 0 is kept apart (measure-zero boundary)
@@ -295,7 +322,7 @@ def run_U(case):
     dist = np.minimum(np.abs(outs[1:, i] - hi[i]), np.abs(outs[1:, i] - lo[i]))
     two_valued &= bool(np.all(dist <= 1e-6 * scale))
   # one real draw: finite, and one of the two observed levels per coordinate
-  real = np.asarray(_call_q(case['fn'], case['v'], case['L'], case['shape'], 12345), np.float64)
+  real = np.asarray(_call_q(case['fn'], case['v'], case['L'], case['shape'], 12345, case.get('bounds'), case.get('kw', 1)), np.float64)
   real_ok = bool(np.all(np.minimum(np.abs(real - hi), np.abs(real - lo)) <= 1e-6 * scale))
   return {'v': [float(x) for x in v32.astype(np.float64)], 'lo': [float(x) for x in lo], 'hi': [float(x) for x in hi],
           'at0': [float(x) for x in at0], 'gstar': gstar, 'monotone': monotone, 'two_valued': two_valued,
@@ -443,8 +470,253 @@ def run_A(case):
   return {'rounds': rounds}
 
 
+
+# --------------------------------------------------------------------------
+# wave 3 extras (oracle only): every check is a named boolean
+
+XSUBS = ['forms', 'boundary', 'reuse', 'owned', 'dtypes', 'contexts', 'entry']
+
+
+def _close(a, b, rtol=1e-5, atol=1e-6):
+  a, b = np.asarray(a, np.float64), np.asarray(b, np.float64)
+  return bool(a.shape == b.shape and np.all(np.isfinite(a)) and np.all(np.abs(a - b) <= atol + rtol * np.abs(b)))
+
+
+def _flat(tree):
+  return np.concatenate([np.asarray(l, np.float64).reshape(-1) for l in _leaves(tree)]) if _leaves(tree) else np.zeros(0)
+
+
+class _Counting:
+  """A one-shot iterator that counts how often it is advanced."""
+
+  def __init__(self, items):
+    self.it, self.n, self.done = iter(items), 0, 0
+
+  def __iter__(self):
+    return self
+
+  def __next__(self):
+    try:
+      v = next(self.it)
+    except StopIteration:
+      self.done += 1
+      raise
+    self.n += 1
+    return v
+
+
+def _xclients(case, n=3, np_params=False, ids='bytes', wkind='float', scale=1.0, ws=None):
+  import jax.numpy as jnp
+  out = []
+  n = len(ws) if ws is not None else n
+  for c in range(n):
+    vals = [[_nz(v) / 8.0 for v in lcg(4, case['seed'] + 11 * c)], [_nz(v) / 8.0 for v in lcg(3, case['seed'] + 11 * c + 5)]]
+    mk = (lambda a: np.array(a, np.float32)) if np_params else (lambda a: jnp.asarray(np.array(a, np.float32)))
+    params = {'w': mk(vals[0]), 'b': mk(vals[1])}
+    w = (ws[c] if ws is not None else [1.0, 2.0, 0.5, 3.0][c % 4]) * scale
+    w = {'float': float, 'int': lambda x: int(x), 'np': np.float32, 'jnp': jnp.float32, 'np0d': lambda x: np.array(x, np.float32)}[wkind](w)
+    cid = {'bytes': b'c%d' % c, 'str': 'c%d' % c, 'int': c, 'empty': b''}[ids]
+    out.append((cid, params, w))
+  return out
+
+
+def run_X(case):
+  import jax
+  import jax.numpy as jnp
+  from fedjax.aggregators import compression as cp
+  sub = case['sub']
+  chk = {}
+
+  def guard(name, f):
+    try:
+      chk[name] = bool(f())
+    except fw.Hang:
+      raise
+    except Exception as ex:  # pylint: disable=broad-except
+      chk[name] = False
+      chk[name + '!'] = f'{type(ex).__name__}: {str(ex)[:100]}'
+
+  def mk(key=None, L=None):
+    c = dict(case)
+    c['key'] = case['key'] if key is None else key
+    c['L'] = case['L'] if L is None else L
+    return _make_agg(c)
+
+  def one(agg, clients, state=None):
+    st = agg.init() if state is None else state
+    out, st2 = agg.apply(clients, st)
+    return out, st2
+
+  if sub == 'forms':
+    base, bst = one(mk(), _xclients(case))
+    bflat, bbits = _flat(base), float(bst.num_bits)
+    same = lambda r: _close(_flat(r[0]), bflat) and abs(float(r[1].num_bits) - bbits) <= 1e-3 * (1 + bbits)
+    for nm, f in (('tuple', tuple), ('generator', lambda l: (c for c in l)), ('iter', iter), ('map', lambda l: map(lambda c: c, l))):
+      guard('clients-as-' + nm, lambda f=f: same(one(mk(), f(_xclients(case)))))
+    def counting():
+      it = _Counting(_xclients(case))
+      r = one(mk(), it)
+      return same(r) and it.n == 3 and it.done >= 1
+    guard('one-shot-iterator-consumed-once', counting)
+    guard('numpy-params', lambda: same(one(mk(), _xclients(case, np_params=True))))
+    for ids in ('str', 'int', 'empty'):
+      guard('ids-' + ids, lambda ids=ids: same(one(mk(), _xclients(case, ids=ids))))
+    for wk in ('np', 'jnp', 'np0d'):
+      guard('weights-' + wk, lambda wk=wk: same(one(mk(), _xclients(case, wkind=wk))))
+    def typed():
+      k = jax.random.key(case['key'])
+      a = {'usq': lambda: cp.uniform_stochastic_quantizer(case['L'], k), 'usq_arith': lambda: cp.uniform_stochastic_quantizer(case['L'], k, 'arithmetic'),
+           'rusq': lambda: cp.rotated_uniform_stochastic_quantizer(case['L'], k), 'drive': lambda: cp.structured_drive_quantizer(k),
+           'tern': lambda: cp.terngrad_quantizer(k)}[case['agg']]()
+      return same(one(a, _xclients(case)))
+    guard('typed-key', typed)
+    if case['agg'] in ('usq', 'rusq', 'usq_arith'):
+      def npl():
+        c = dict(case)
+        k = jax.random.PRNGKey(case['key'])
+        a = (cp.uniform_stochastic_quantizer(np.int64(case['L']), k) if case['agg'] == 'usq' else
+             cp.uniform_stochastic_quantizer(np.int64(case['L']), k, 'arithmetic') if case['agg'] == 'usq_arith' else
+             cp.rotated_uniform_stochastic_quantizer(np.int64(case['L']), k))
+        return same(one(a, _xclients(case)))
+      guard('numpy-int-levels', npl)
+  elif sub == 'boundary':
+    def wmean_ok(ws, wkind='float'):
+      cl = _xclients(case, ws=ws, wkind=wkind)
+      with Spy() as spy, jax.disable_jit():
+        out, st = one(mk(), cl)
+      finals = ([[l.reshape(-1) for l in o] for _, o in spy.inv] if spy.inv else [[l.reshape(-1) for l in o] for _, _, o in spy.quant])
+      tot = sum(float(w) for _, _, w in cl)
+      ref = sum(float(w) * np.concatenate(f).astype(np.float64) for (_, _, w), f in zip(cl, finals)) / tot
+      return _close(_flat(out), ref, rtol=1e-4, atol=1e-5)
+    guard('weights-0-and-1', lambda: wmean_ok([0.0, 1.0, 0.0]))
+    guard('weight-exactly-1-single-client', lambda: wmean_ok([1.0]))
+    guard('total-weight-below-1', lambda: wmean_ok([0.125, 0.25, 0.0625]))
+    guard('int-weights-0-1', lambda: wmean_ok([0, 1, 1], 'int'))
+    def empty():
+      a = mk()
+      st0 = a.init()
+      out, st = a.apply([], st0)
+      return out is None and abs(float(st.num_bits)) == 0.0
+    guard('empty-cohort', empty)
+    guard('key-seed-0', lambda: np.all(np.isfinite(_flat(one(mk(key=0), _xclients(case))[0]))))
+  elif sub == 'reuse':
+    a = mk()
+    st0 = a.init()
+    cl1, cl2 = _xclients(case), _xclients({**case, 'seed': case['seed'] + 1})
+    o1, s1 = a.apply(cl1, st0)
+    o1c, b1, r1 = _flat(o1).copy(), float(s1.num_bits), np.asarray(s1.rng).copy()
+    # another aggregator from the SAME key with other hyper-parameters, interleaved
+    b = mk(L=case['L'] + 2)
+    ob1, sb1 = b.apply(cl1, b.init())
+    o2, s2 = a.apply(cl2, s1)
+    ob2, sb2 = b.apply(cl2, sb1)
+    guard('kept-result-unchanged', lambda: _close(_flat(o1), o1c, 0, 0))
+    guard('kept-state-unchanged', lambda: float(s1.num_bits) == b1 and np.array_equal(np.asarray(s1.rng), r1))
+    guard('init-again', lambda: (lambda s: float(s.num_bits) == 0.0 and np.array_equal(np.asarray(s.rng), np.asarray(st0.rng)) and
+                                 np.array_equal(np.asarray(s.rng), np.asarray(jax.random.PRNGKey(case['key']))))(a.init()))
+    fresh = mk()
+    f1, fs1 = fresh.apply(_xclients(case), fresh.init())
+    f2, fs2 = fresh.apply(_xclients({**case, 'seed': case['seed'] + 1}), fs1)
+    guard('fresh-object-round-1', lambda: _close(_flat(f1), o1c) and abs(float(fs1.num_bits) - b1) <= 1e-3 * (1 + b1))
+    guard('fresh-object-round-2', lambda: _close(_flat(f2), _flat(o2)) and np.array_equal(np.asarray(fs2.rng), np.asarray(s2.rng)))
+    guard('first-object-again-from-init', lambda: _close(_flat(a.apply(_xclients(case), a.init())[0]), o1c))
+    guard('same-state-twice', lambda: _close(_flat(a.apply(_xclients(case), st0)[0]), o1c))
+    guard('state-advances', lambda: not np.array_equal(np.asarray(s1.rng), np.asarray(st0.rng)) and
+          not np.array_equal(np.asarray(s2.rng), np.asarray(s1.rng)))
+  elif sub == 'owned':
+    cl = _xclients(case)
+    tuples = list(cl)
+    keys = [list(p) for _, p, _ in cl]
+    lids = [[id(p[k]) for k in p] for _, p, _ in cl]
+    vals = [_flat(p).copy() for _, p, _ in cl]
+    a = mk()
+    out, st = a.apply(cl, a.init())
+    out2, _ = a.apply(cl, st)
+    guard('client-list-unchanged', lambda: len(cl) == 3 and all(x is y for x, y in zip(cl, tuples)))
+    guard('params-containers-unchanged', lambda: [list(p) for _, p, _ in cl] == keys and
+          [[id(p[k]) for k in p] for _, p, _ in cl] == lids)
+    guard('params-values-unchanged', lambda: all(_close(_flat(p), v, 0, 0) for (_, p, _), v in zip(cl, vals)))
+    guard('result-does-not-alias-input', lambda: all(o is not i for o in _leaves(out) + _leaves(out2) for _, p, _ in cl for i in _leaves(p)))
+    # single client, weight 1, values already on the grid: the aggregate has the input's VALUES but must be another object
+    def single():
+      p = {'w': jnp.asarray(np.array([0.0, 1.0, 2.0], np.float32))}
+      o, _ = a.apply([(b'x', p, 1.0)], a.init())
+      return o['w'] is not p['w'] and _close(p['w'], [0.0, 1.0, 2.0], 0, 0)
+    guard('single-client-not-aliased', single)
+  elif sub == 'dtypes':
+    k = jax.random.PRNGKey(case['key'])
+    v = np.array([_nz(x) / 8.0 for x in lcg(6, case['seed'])], np.float32)
+    def member(out, vv, L, tol):
+      levels, step, vmin, vmax = _usq_levels([float(x) for x in vv], L)
+      sc = float(max(abs(vmin), abs(vmax), step)) + 1e-30
+      return all(min(abs(float(o) - float(l)), abs(float(o) - float(h))) <= tol * sc for o, (l, h, t) in zip(np.asarray(out, np.float64), levels))
+    for dt, tol in ((jnp.float16, 4e-3), (jnp.bfloat16, 3e-2)):
+      xv = jnp.asarray(v).astype(dt)
+      xf = np.asarray(xv).astype(np.float32)
+      guard(f'usq-{dt.__name__}', lambda xv=xv, xf=xf, tol=tol: member(cp.uniform_stochastic_quantize(xv, case['L'] + 1, k), xf, case['L'] + 1, tol))
+      guard(f'bsq-{dt.__name__}', lambda xv=xv, xf=xf, tol=tol: member(cp.binary_stochastic_quantize(xv, k), xf, 2, tol))
+      guard(f'tern-{dt.__name__}-finite', lambda xv=xv: bool(np.all(np.isfinite(np.asarray(cp.terngrad_quantize(xv, k), np.float64)))))
+    vi = np.array([1, 2, 4, 9, -3, 9], np.int32)
+    guard('usq-int32', lambda: member(cp.uniform_stochastic_quantize(jnp.asarray(vi), 5, k), vi.astype(np.float32), 5, 1e-5))
+    guard('usq-0d-scalar', lambda: _close(cp.uniform_stochastic_quantize(jnp.float32(2.5), 3, k), 2.5))
+    guard('usq-numpy-input', lambda: member(cp.uniform_stochastic_quantize(v, 4, k), v, 4, 1e-5))
+    guard('drive-float16-finite', lambda: bool(np.all(np.isfinite(_flat(cp.drive_pytree({'a': jnp.asarray(v).astype(jnp.float16)}))))))
+  elif sub == 'contexts':
+    k = jax.random.PRNGKey(case['key'])
+    v = jnp.asarray(np.array([_nz(x) / 8.0 for x in lcg(5, case['seed'])], np.float32))
+    tree = {'a': v, 'b': {'c': v.reshape(5, 1) * 2}}
+    L = case['L'] + 1
+    for nm, f in (('usq-pytree', lambda t, kk: cp.uniform_stochastic_quantize_pytree(t, L, kk)), ('tern-pytree', cp.terngrad_quantize_pytree)):
+      j = f(tree, k)
+      def eager(f=f, j=j):
+        with Spy(wrap=False) as spy, jax.disable_jit():
+          e = f(tree, k)
+        keys = [kb for kb, _ in spy.uniform]
+        return (_close(_flat(e), _flat(j)) and len(keys) == 2 and len(set(keys)) == 2 and
+                jax.tree_util.tree_structure(e) == jax.tree_util.tree_structure(tree) and
+                all(a.shape == b.shape for a, b in zip(_leaves(e), _leaves(tree))))
+      guard(nm + '-jit-vs-eager-and-leaf-keys', eager)
+      guard(nm + '-inside-jit', lambda f=f, j=j: _close(_flat(jax.jit(f)(tree, k)), _flat(j)))
+      guard(nm + '-same-key-same-result', lambda f=f, j=j: _close(_flat(f(tree, k)), _flat(j), 0, 0))
+    def usq_member():
+      q = cp.uniform_stochastic_quantize_pytree(tree, L, k)
+      ok = True
+      for ql, xl in zip(_leaves(q), _leaves(tree)):
+        levels, step, vmin, vmax = _usq_levels([float(x) for x in xl.reshape(-1)], L)
+        sc = float(max(abs(vmin), abs(vmax), step)) + 1e-30
+        ok &= all(min(abs(float(o) - float(l)), abs(float(o) - float(h))) <= 3e-6 * sc for o, (l, h, t) in zip(ql.reshape(-1), levels))
+      return ok
+    guard('usq-pytree-levels', usq_member)
+    guard('drive-pytree-jit-vs-eager', lambda: (lambda j: (lambda e: _close(_flat(e), _flat(j)))(
+        (lambda: [jax.disable_jit().__enter__(), cp.drive_pytree(tree)][1])()))(cp.drive_pytree(tree)))
+  elif sub == 'entry':
+    v = jnp.asarray(np.array([_nz(x) / 8.0 for x in lcg(7, case['seed'])], np.float32))
+    guard('num_leaves', lambda: (cp.num_leaves({'a': v, 'b': {'c': v, 'd': [v, v]}}), cp.num_leaves({}), cp.num_leaves(v),
+                                 cp.num_leaves((v, v))) == (4, 0, 1, 2))
+    for nm, arr in (('distinct', np.array([1., 2., 3., 4., 5.], np.float32)), ('constant', np.zeros(4, np.float32)),
+                    ('levels', np.array([0., .5, .5, 1., 0., 0., 1., .5], np.float32)), ('2d', np.array([[1., 1.], [2., 3.]], np.float32))):
+      guard('arithmetic-bits-' + nm, lambda arr=arr: abs(float(cp.arithmetic_encoding_num_bits(jnp.asarray(arr))) - _arith_bits(arr.reshape(-1))) <=
+            1e-4 * _arith_bits(arr.reshape(-1)))
+    for nm, t in (('list', [v, v * 2]), ('tuple', (v, (v * 3,))), ('dict', {'x': v, 'y': {'z': jnp.zeros(3)}})):
+      def f(t=t):
+        o = cp.drive_pytree(t)
+        if jax.tree_util.tree_structure(o) != jax.tree_util.tree_structure(t):
+          return False
+        for ol, xl in zip(_leaves(o), _leaves(t)):
+          x = np.asarray(xl, np.float64).reshape(-1)
+          n1 = np.sum(np.abs(x))
+          ref = (np.sum(x * x) / n1) * np.sign(x) if n1 > 0 else np.zeros_like(x)
+          if not _close(ol.reshape(-1), ref, rtol=1e-5, atol=1e-6):
+            return False
+        return True
+      guard('drive-pytree-' + nm, f)
+    guard('state-dataclass', lambda: (lambda s: float(s.num_bits) == 1.5 and s.replace(num_bits=2.0).num_bits == 2.0)(
+        cp.CompressionState(1.5, jax.random.PRNGKey(0))))
+  return {'checks': chk}
+
+
 def run(case):
-  return {'U': run_U, 'D': run_D, 'A': run_A}[case['kind']](case)
+  return {'X': run_X, 'U': run_U, 'D': run_D, 'A': run_A}[case['kind']](case)
 
 
 # --------------------------------------------------------------------------
@@ -454,10 +726,14 @@ def _F(x):
   return Fraction(float(x))
 
 
-def _usq_levels(v, L):
-  """Exact neighbours and thresholds of every coordinate on the (L-1)-step grid between min and max."""
+def _usq_levels(v, L, bounds=None):
+  """Exact neighbours and thresholds of every coordinate on the (L-1)-step grid between min and max
+  (or between explicit bounds, values outside being clamped to them)."""
   fv = [_F(x) for x in v]
   vmin, vmax = min(fv), max(fv)
+  if bounds is not None:
+    vmin, vmax = _F(np.float32(bounds[0])), _F(np.float32(bounds[1]))
+    fv = [min(max(x, vmin), vmax) for x in fv]
   if vmax == vmin:
     return [(x, x, Fraction(0)) for x in fv], Fraction(0), vmin, vmax
   step = (vmax - vmin) / (L - 1)
@@ -537,11 +813,11 @@ def _oracle_U(case, obs):
   if not obs['monotone']:
     out.append(('threshold-direction', 'output is not (upper level for u <= t, lower level for u > t)'))
   if fn in ('usq', 'bsq'):
-    levels, step, vmin, vmax = _usq_levels(v, L if fn == 'usq' else 2)
+    levels, step, vmin, vmax = _usq_levels(v, L if fn == 'usq' else 2, case.get('bounds'))
     scale = float(max(abs(vmin), abs(vmax), step))
     _check_sweep(out, '', levels, obs, G, scale, 'bsq.u0-min-becomes-max' if fn == 'bsq' else None, float(vmin), float(vmax))
     # consequences stated by the property: in range, error <= one step, identity on grid / constant / zero vectors
-    for x, lo_i, hi_i, (l, h, t) in zip(v, obs['lo'], obs['hi'], levels):
+    for x, lo_i, hi_i, (l, h, t) in zip([] if case.get('bounds') else v, obs['lo'], obs['hi'], levels):
       tol = 2e-6 * scale + 1e-30
       for o in (lo_i, hi_i):
         if not (float(vmin) - tol <= o <= float(vmax) + tol) or abs(o - x) > float(step) + tol:
@@ -706,8 +982,18 @@ def _oracle_A(case, obs):
   return _dedup(out)
 
 
+def _oracle_X(case, obs):
+  out = []
+  tag = f'x.{case["sub"]}.' + (f'{case["agg"]}.' if case.get('agg') else '')
+  for name, ok in sorted(obs['checks'].items()):
+    if name.endswith('!') or ok:
+      continue
+    out.append((tag + name, f'{case["sub"]} / {name} failed {obs["checks"].get(name + "!", "")}'))
+  return out
+
+
 def oracle(case, obs):
-  return {'U': _oracle_U, 'D': _oracle_D, 'A': _oracle_A}[case['kind']](case, obs)
+  return {'X': _oracle_X, 'U': _oracle_U, 'D': _oracle_D, 'A': _oracle_A}[case['kind']](case, obs)
 
 
 # --------------------------------------------------------------------------
@@ -742,11 +1028,17 @@ def encode(case, obs):
 
 def _encode(case, obs):
   kind = case['kind']
+  if kind == 'X':
+    return None
   if kind == 'U':
     if not obs['finite'] or obs['n_out'] != len(obs['v']):
       return '(CD [], OD [0])'      # forced disagreement
     fn = case['fn']
-    if fn == 'usq':
+    if case.get('bounds') and fn == 'usq':
+      f = f'(FUsqB {case["L"]} {_q(np.float32(case["bounds"][0]))} {_q(np.float32(case["bounds"][1]))})'
+    elif case.get('bounds'):
+      f = f'(FBsqB {_q(np.float32(case["bounds"][0]))} {_q(np.float32(case["bounds"][1]))})'
+    elif fn == 'usq':
       f = f'(FUsq {case["L"]})'
     elif fn == 'bsq':
       f = 'FBsq'
@@ -817,6 +1109,8 @@ def describe(case, obs):
     v = case['v']
     return {'kind': 'U.' + case['fn'], 'L': min(case['L'], 18), 'n': min(len(v), 14),
             'vector': 'constant' if len(set(v)) == 1 else 'generic'}
+  if case['kind'] == 'X':
+    return {'kind': 'X.' + case['sub'] + ('.' + case['agg'] if case.get('agg') else '')}
   if case['kind'] == 'A':
     return {'kind': 'A.' + case['agg'], 'clients': case['clients'], 'rounds': case['rounds'], 'tree': case['tree']}
   return {'kind': 'D'}
